@@ -171,6 +171,8 @@ def run_case(case):
     am = core.Absmap(case["naming"], case["D"])
     if case.get("env") == "standin":
         standin_cplex.install()
+    elif case.get("env") == "brokencplex":
+        standin_cplex.install_broken()
     else:
         standin_cplex.uninstall()
     log_starts, log_aux = [], []
@@ -285,7 +287,7 @@ def run_case(case):
         rec["starts"] = [am.ranking(r) for r in log_starts]
         return rec
     finally:
-        if case.get("env") == "standin":
+        if case.get("env") in ("standin", "brokencplex"):
             standin_cplex.uninstall()
     rec["out"] = "consensus"
     if reuse and reuse["kind"] == "then_other":
